@@ -228,11 +228,37 @@ def run(ctx):
                 "empty and with a space, each step followed by ${a[k]}, ${!a[@]}, ${#a[@]}, ${a[@]:o:l}, ${a[@]:o}; "
                 "shell: the same histories (error-free ones) as programs in 6 contexts; non-trivial = history that reaches a sparse array")
 
+    # the Coq evaluations (shards) and the bash runs are independent processes: run them side by side
+    progs = [r["src"] for r in shell] + [r["src"] for r in kf]
+    pshards = [prim[i:i + 600] for i in range(0, len(prim), 600)]
+    hshards = [hist[i:i + 125] for i in range(0, len(hist), 125)]
+    hterms, hpre, nsteps = [], [], 0
+    for part in hshards:
+        terms = []
+        for h in part:
+            ts = []
+            for si, s in enumerate(h["steps"]):
+                t = step_term(s)
+                if t is None:
+                    hpre.append({"history": [x["stmt"] for x in h["steps"][:si + 1]], "go_var": s["var"],
+                                 "why": "Go value outside the modelled kinds (Kind/Set combination)"})
+                    break
+                ts.append(t)
+            nsteps += len(ts)
+            terms.append(coq_list(ts))
+        hterms.append(coq_list(terms))
+    with ThreadPoolExecutor(max_workers=5) as ex:
+        fb = ex.submit(run_bash, ctx, progs, 3, 20 if quick else 100)
+        fp = [ex.submit(ctx.coq_cases, "c33_prim_%d" % i, PRIM % coq_list([prim_term(r) for r in part]))
+              for i, part in enumerate(pshards)]
+        fh = [ex.submit(ctx.coq_cases, "c33_hist_%d" % i, HIST % t) for i, t in enumerate(hterms)]
+        bash, berr = fb.result()
+        pres = [f.result() for f in fp]
+        hres = [f.result() for f in fh]
+
     # ------------------------------------------------------------ code leg 1: primitives
     mism = []
-    for sh in range(0, len(prim), 1500):
-        part = prim[sh:sh + 1500]
-        ok, out = ctx.coq_cases("c33_prim_%d" % sh, PRIM % coq_list([prim_term(r) for r in part]))
+    for part, (ok, out) in zip(pshards, pres):
         m = re.search(r"M\s*=\s*(\[[^\]]*\])", out)
         if not ok or not m:
             ctx.broken.append(("correspondence:code-eval", "coqc on generated prim cases failed: " + out[-800:]))
@@ -243,24 +269,8 @@ def run(ctx):
     ctx.count(len(prim))
 
     # ------------------------------------------------------------ code leg 2: histories
-    mism = []
-    nsteps = 0
-    for sh in range(0, len(hist), 300):
-        part = hist[sh:sh + 300]
-        terms, pre = [], []
-        for hi, h in enumerate(part):
-            ts = []
-            for si, s in enumerate(h["steps"]):
-                t = step_term(s)
-                if t is None:
-                    pre.append({"history": [x["stmt"] for x in h["steps"][:si + 1]], "go_var": s["var"],
-                                "why": "Go value outside the modelled kinds (Kind/Set combination)"})
-                    break
-                ts.append(t)
-            nsteps += len(ts)
-            terms.append(coq_list(ts))
-        mism += pre
-        ok, out = ctx.coq_cases("c33_hist_%d" % sh, HIST % coq_list(terms))
+    mism = list(hpre)
+    for part, (ok, out) in zip(hshards, hres):
         m = re.search(r"M\s*=\s*(\[[^\]]*\])", out, re.S)
         if not ok or not m:
             ctx.broken.append(("correspondence:code-eval", "coqc on generated history cases failed: " + out[-800:]))
@@ -278,8 +288,6 @@ def run(ctx):
         ctx.sample({"history": [s["stmt"] for s in h["steps"]], "final_go_var": h["steps"][-1].get("var")})
 
     # ------------------------------------------------------------ search: interp vs bash vs reference map
-    progs = [r["src"] for r in shell] + [r["src"] for r in kf]
-    bash, berr = run_bash(ctx, progs, jobs=4, chunk=20 if quick else 100)
     nref = []
     for i, r in enumerate(shell):
         want = bytes.fromhex(r["want"]).decode("utf-8", "replace")
